@@ -27,6 +27,8 @@ void     vf_observe_f64(const char * name, double v);
 void     vf_observe_i64(const char * name, int64_t v);
 // equality of two computed reals: exact in the symbolic domains, |a-b| <= 1e-9*max(1,|a|,|b|) on IEEE doubles
 bool     vf_eq(double a, double b);
+// k-th loop-carried value havocked by a loop summary on this path ("value at the start of the last iteration")
+double   vf_havoc(int64_t k);
 // 1 while executing symbolically (vf_d available), 0 in concrete runs (engine or native): use finite differences there
 bool     vf_symbolic();
 // like vf_eq with an explicit relative tolerance for the concrete runs
